@@ -81,18 +81,23 @@ type c14lStep struct {
 	Gens    []int     `json:"gens"`    // generations the held selector answers for (non-nil entries)
 	Sel     []c14lObs `json:"sel"`
 }
-type c14lConcSel struct {
-	Seen []string `json:"seen"` // distinct answers (out/ip/rp) observed while reloads were going on
-	A    string   `json:"a"`    // the answer of a selector loaded freshly from Files[0]
-	B    string   `json:"b"`    // ... from Files[1]
+
+// lifeconc: per worker, the run-length-encoded sequence of what its selections returned, each entry as the set of
+// files (bit k = Files[k]) under which a freshly loaded selector gives that very answer
+type c14lSeg struct {
+	Mask uint64 `json:"mask"`
+	N    int    `json:"n"`
+	Sel  int    `json:"sel"` // first selection of the segment
+	Ans  string `json:"ans"`
 }
 type c14lOut struct {
 	Steps []c14lStep `json:"steps"`
 	// lifeconc
-	Conc    []c14lConcSel `json:"conc,omitempty"`
-	Reloads int           `json:"reloads"`
-	Ops     int64         `json:"ops"`
-	Stage   string        `json:"stage,omitempty"`
+	Workers [][]c14lSeg `json:"workers,omitempty"`
+	Fresh   [][]string  `json:"fresh,omitempty"` // Fresh[k][i]: answer of a selector loaded from Files[k] for selection i
+	Reloads int         `json:"reloads"`
+	Ops     int64       `json:"ops"`
+	Stage   string      `json:"stage,omitempty"`
 }
 
 func c14lKey(r c14lRes) string { return fmt.Sprintf("%s/%s/%v", r.Out, r.IP, r.RP) }
@@ -111,75 +116,84 @@ func c14lSelectOn(sel *phantoms.PhantomIPSelector, s c14lSel) (r c14lRes) {
 	return c14lRecord(nil, p.IP(), p.SupportRandomPort(), nil)
 }
 
-// selections through GetPhantomSelector().Select from several goroutines while OnReload alternates between two files
+// selections through GetPhantomSelector().Select from several goroutines while OnReload takes the manager through
+// Files[1], Files[2], ... in order (every file loads)
 func c14lConcRun(c c14lCase, dir string, logger *log.Logger) (out c14lOut) {
-	paths := []string{c14lPlace(dir, "a.toml", c.Files[0]), c14lPlace(dir, "b.toml", c.Files[1])}
-	fa, erra := phantoms.SubnetsFromTomlFile(paths[0])
-	fb, errb := phantoms.SubnetsFromTomlFile(paths[1])
+	var paths []string
+	sels := c.Sels[0]
+	for k, f := range c.Files {
+		paths = append(paths, c14lPlace(dir, fmt.Sprintf("conc_%d.toml", k), f))
+		fs, err := phantoms.SubnetsFromTomlFile(paths[k])
+		if err != nil {
+			out.Stage = fmt.Sprintf("setup: file %d: %v", k, err)
+			return out
+		}
+		row := make([]string, len(sels))
+		for i, s := range sels {
+			row[i] = c14lKey(c14lSelectOn(fs, s))
+		}
+		out.Fresh = append(out.Fresh, row)
+	}
 	rm, stage := c14lManager(paths[0], logger)
 	out.Stage = stage
-	if rm == nil || erra != nil || errb != nil {
-		out.Stage = fmt.Sprintf("setup:%s %v %v", stage, erra, errb)
+	if rm == nil {
 		return out
 	}
-	sels := c.Sels[0]
+	mask := func(i int, ans string) (m uint64) {
+		for k := range out.Fresh {
+			if out.Fresh[k][i] == ans {
+				m |= 1 << uint(k)
+			}
+		}
+		return m
+	}
 	var ops int64
 	var done int32
-	var mu sync.Mutex
-	seen := make([]map[string]bool, len(sels))
-	for i := range seen {
-		seen[i] = map[string]bool{}
-	}
+	out.Workers = make([][]c14lSeg, c.Workers)
 	var wg sync.WaitGroup
 	for w := 0; w < c.Workers; w++ {
 		wg.Add(1)
 		go func(w int) {
 			defer wg.Done()
-			local := make([]map[string]bool, len(sels))
-			for i := range local {
-				local[i] = map[string]bool{}
-			}
+			var segs []c14lSeg
 			for round := 0; round < c.Rounds || atomic.LoadInt32(&done) == 0; round++ {
 				for j := range sels {
 					i := (j + w) % len(sels)
-					local[i][c14lKey(c14lSelect(rm, nil, sels[i]))] = true
+					ans := c14lKey(c14lSelect(rm, nil, sels[i]))
+					m := mask(i, ans)
+					if n := len(segs); n > 0 && segs[n-1].Mask == m && m != 0 {
+						segs[n-1].N++
+					} else if len(segs) < 20000 {
+						segs = append(segs, c14lSeg{Mask: m, N: 1, Sel: i, Ans: ans})
+					}
 					atomic.AddInt64(&ops, 1)
 				}
 			}
-			mu.Lock()
-			for i := range local {
-				for k := range local[i] {
-					seen[i][k] = true
-				}
-			}
-			mu.Unlock()
+			out.Workers[w] = segs
 		}(w)
 	}
-	out.Stage = c14lGuard(func() {
-		for k := 0; k < c.Reloads; k++ {
+	stage = c14lGuard(func() {
+		for k := 1; k < len(paths); k++ {
 			// let the workers get some selections in under the current configuration
 			start := atomic.LoadInt64(&ops)
-			for spin := 0; atomic.LoadInt64(&ops) < start+int64(2*c.Workers) && spin < 1000000; spin++ {
+			for spin := 0; atomic.LoadInt64(&ops) < start+int64(3*len(sels)) && spin < 5000000; spin++ {
 				runtime.Gosched()
 			}
-			os.Setenv("PHANTOM_SUBNET_LOCATION", paths[(k+1)%2])
+			os.Setenv("PHANTOM_SUBNET_LOCATION", paths[k])
 			conf := &RegConfig{}
 			_ = conf.ParseBlocklists()
 			rm.OnReload(conf)
 			out.Reloads++
 		}
+		start := atomic.LoadInt64(&ops)
+		for spin := 0; atomic.LoadInt64(&ops) < start+int64(3*len(sels)) && spin < 5000000; spin++ {
+			runtime.Gosched()
+		}
 	})
 	atomic.StoreInt32(&done, 1)
 	wg.Wait()
+	out.Stage = stage
 	out.Ops = atomic.LoadInt64(&ops)
-	for i, s := range sels {
-		cs := c14lConcSel{A: c14lKey(c14lSelectOn(fa, s)), B: c14lKey(c14lSelectOn(fb, s))}
-		for k := range seen[i] {
-			cs.Seen = append(cs.Seen, k)
-		}
-		sort.Strings(cs.Seen)
-		out.Conc = append(out.Conc, cs)
-	}
 	return out
 }
 
